@@ -63,6 +63,7 @@ type runHooks struct {
 	kfOpen        map[string]bool
 	concrete      map[string]string // concrete-mode nondet values (validation)
 	observeLog    []string
+	kfUndecided   bool // a query inside a known-finding region came back unknown
 	c18notes      map[string]int    // C18: what was written where (diagnostics)
 	c18reads      map[string]bool   // C18: global state read outside any mutex
 	c18writes     map[string]string // C18: global state written -> lock context
@@ -330,6 +331,9 @@ func (ex *Exec) assertOblN(c *Term, id string, kfs []string, regions []*Term) {
 			if vd == Sat {
 				h.kfCount[kf]++
 				h.obls = append(h.obls, Obligation{ID: id, PathNo: h.pathNo, KF: kf, InRegion: true, Verdict: "known-finding", Model: ex.completeModel(model)})
+			} else if vd == Unknown {
+				// undecided inside the region: the region audit must not count this instance as free of the failure
+				h.kfUndecided = true
 			}
 		}
 		// (2) outside the regions the property is asserted
